@@ -23,7 +23,7 @@ const CASE_TIMEOUT_S: u64 = 30;
 struct Obs {
     crashed: bool, timed_out: bool, panicked: Option<String>,
     add_ok: bool, nerr: usize, nwarn: usize, render_ok: bool, build_ok: bool,
-    labels: Vec<(usize, usize, bool, bool)>, rendered_len: usize,
+    labels: Vec<(usize, usize, usize, bool, bool)>, rendered_len: usize,
     declared: Vec<String>, built: Vec<String>, ignored: Vec<String>, ast_rules: Option<Vec<String>>,
     utf8_err: Option<(usize, Option<usize>)>, e032_span: Option<(usize, usize)>, max_depth: usize,
     codes: Vec<String>, wcodes: Vec<String>, multiline_fix: bool,
@@ -35,6 +35,8 @@ struct Obs {
     head_ok: bool,
     /// spans of the RULE_DECL nodes (parallel to `declared`) and of the labels of errors only
     decl_spans: Vec<(usize, usize)>, err_labels: Vec<(usize, usize)>,
+    /// the same source with base64 and base64wide exchanged is accepted / rejected with other error codes
+    twin_mismatch: bool, has_includes: bool,
 }
 
 fn declared_rules(src: &[u8]) -> (Vec<String>, usize, Vec<(usize, usize)>, Vec<(usize, usize)>) {
@@ -86,9 +88,32 @@ fn apply_cfg(c: &mut yara_x::Compiler, cfg: u8) {
     }
 }
 
-fn observe(src: &[u8], cfg: u8) -> Obs {
+/// files an `include` statement can find (name, content); `weird_dir`: the include directory's name is not UTF-8
+#[derive(Clone, Default)]
+struct IncSet { files: Vec<(String, Vec<u8>)>, weird_dir: bool }
+
+fn inc_encode(i: &IncSet) -> String {
+    format!("I:{}:{}", i.weird_dir as u8, i.files.iter().map(|(n, c)| format!("{}={}", hex(n.as_bytes()), hex(c))).collect::<Vec<_>>().join(","))
+}
+fn inc_decode(s: &str) -> Option<IncSet> {
+    let mut it = s.splitn(3, ':'); if it.next()? != "I" { return None; }
+    let weird = it.next()? == "1";
+    let files = it.next()?.split(',').filter(|x| !x.is_empty()).filter_map(|kv| { let (k, v) = kv.split_once('=')?; Some((String::from_utf8_lossy(&unhex(k)).to_string(), unhex(v))) }).collect();
+    Some(IncSet { files, weird_dir: weird })
+}
+
+fn compile_outcome(src: &[u8], cfg: u8) -> (bool, Vec<String>) {
+    let mut c = yara_x::Compiler::new();
+    apply_cfg(&mut c, cfg);
+    let ok = c.add_source(src).is_ok();
+    let mut codes: Vec<String> = c.errors().iter().map(|e| e.code().to_string()).collect(); codes.sort();
+    (ok, codes)
+}
+
+fn observe(src: &[u8], cfg: u8, inc: Option<(&IncSet, &Path)>) -> Obs {
     let mut o = Obs::default();
     o.cfg = cfg;
+    o.has_includes = inc.is_some();
     let mut regexps: Vec<(usize, usize)> = vec![];
     let valid = std::str::from_utf8(src);
     let rendered: String = match valid { Ok(s) => s.to_string(), Err(_) => String::from_utf8_lossy(src).to_string() };
@@ -97,11 +122,33 @@ fn observe(src: &[u8], cfg: u8) -> Obs {
     if valid.is_ok() {
         let (d, m, r, ds) = declared_rules(src); o.declared = d; o.max_depth = m; regexps = r; o.decl_spans = ds;
         let ast = yara_x_parser::ast::AST::from(Parser::new(src));
-        o.ast_rules = Some(ast.rules().map(|r| r.identifier.name.to_string()).collect());
+        // (with includes the built rules also come from other files: no exact count)
+        if inc.is_none() { o.ast_rules = Some(ast.rules().map(|r| r.identifier.name.to_string()).collect()); }
     }
     let mut c = yara_x::Compiler::new();
     apply_cfg(&mut c, cfg);
+    // the texts labels can refer to: the submitted source and the included files (as they are rendered)
+    let mut texts: Vec<(Option<String>, String)> = vec![(None, rendered.clone())];
+    if let Some((set, dir)) = inc {
+        use std::os::unix::ffi::OsStrExt;
+        let d = if set.weird_dir { dir.join(std::ffi::OsStr::from_bytes(b"d\xff")) } else { dir.to_path_buf() };
+        let _ = std::fs::remove_dir_all(dir); std::fs::create_dir_all(&d).unwrap();
+        for (n, content) in &set.files { std::fs::write(d.join(n), content).unwrap(); texts.push((Some(n.clone()), String::from_utf8_lossy(content).to_string())); }
+        c.enable_includes(true); c.add_include_dir(&d);
+    }
+    let text_of = |origin: Option<&str>| -> &str {
+        match origin { None => &texts[0].1, Some(p) => texts.iter().find(|(n, _)| n.as_ref().map(|n| p.ends_with(n.as_str())).unwrap_or(false)).map(|t| t.1.as_str()).unwrap_or(&texts[0].1) }
+    };
     o.add_ok = c.add_source(src).is_ok();
+    // metamorphic: base64 and base64wide have the same requirements on the pattern
+    if inc.is_none() {
+        if let Ok(t) = std::str::from_utf8(src) { if t.contains("base64") {
+            let twin = t.replace("base64wide", "\u{1}").replace("base64", "base64wide").replace('\u{1}', "base64");
+            let (ok2, codes2) = compile_outcome(twin.as_bytes(), cfg);
+            let mut codes1: Vec<String> = c.errors().iter().map(|e| e.code().to_string()).collect(); codes1.sort();
+            if ok2 != o.add_ok || codes1 != codes2 { o.twin_mismatch = true; }
+        } }
+    }
     o.nerr = c.errors().len(); o.nwarn = c.warnings().len();
     o.render_ok = true;
     o.head_ok = true;
@@ -111,7 +158,8 @@ fn observe(src: &[u8], cfg: u8) -> Obs {
         let labels = js["labels"].as_array().cloned().unwrap_or_default();
         for l in &labels {
             let (line, col, st) = (l["line"].as_u64().unwrap_or(0) as usize, l["column"].as_u64().unwrap_or(0) as usize, l["span"]["start"].as_u64().unwrap_or(0) as usize);
-            o.linecol.push(((line, col) == line_col(&rendered, st, false), (line, col) == line_col(&rendered, st, true)));
+            let t = text_of(l["code_origin"].as_str());
+            o.linecol.push(((line, col) == line_col(t, st, false), (line, col) == line_col(t, st, true)));
         }
         if let Some(f) = labels.first() {
             if js["line"] != f["line"] || js["column"] != f["column"] { o.head_ok = false; }
@@ -127,18 +175,19 @@ fn observe(src: &[u8], cfg: u8) -> Obs {
     };
     for e in c.errors() {
         check_lines(serde_json::to_value(e).ok(), e.to_string(), &mut o);
-        for l in e.labels() { o.err_labels.push((l.span().start(), l.span().end())); }
+        for l in e.labels() { if l.origin().is_none() { o.err_labels.push((l.span().start(), l.span().end())); } }
         // every way a diagnostic is rendered: Display, Debug, JSON
         if e.to_string().is_empty() || e.title().is_empty() || format!("{:?}", e).is_empty() { o.render_ok = false; }
         if serde_json::to_string(e).map(|s| s.is_empty()).unwrap_or(true) { o.render_ok = false; }
         o.codes.push(e.code().to_string());
         for l in e.labels() {
             let (a, b) = (l.span().start(), l.span().end());
-            o.labels.push((a, b, rendered.is_char_boundary(a), rendered.is_char_boundary(b)));
+            let t = text_of(l.origin());
+            o.labels.push((a, b, t.len(), t.is_char_boundary(a), t.is_char_boundary(b)));
             if e.code() == "E032" && o.e032_span.is_none() { o.e032_span = Some((a, b)); }
             // an error about a regular expression points into that regular expression (or at a construct,
             // like the pattern definition, that contains the whole regexp literal)
-            if e.code() == "E014" && valid.is_ok() && !regexps.iter().any(|(s, t)| (*s <= a && b <= *t) || (a <= *s && *t <= b)) { o.re_outside += 1; }
+            if e.code() == "E014" && valid.is_ok() && l.origin().is_none() && !regexps.iter().any(|(s, t)| (*s <= a && b <= *t) || (a <= *s && *t <= b)) { o.re_outside += 1; }
         }
     }
     for w in c.warnings() {
@@ -148,14 +197,17 @@ fn observe(src: &[u8], cfg: u8) -> Obs {
         o.wcodes.push(w.code().to_string());
         for l in w.labels() {
             let (a, b) = (l.span().start(), l.span().end());
-            o.labels.push((a, b, rendered.is_char_boundary(a), rendered.is_char_boundary(b)));
+            let t = text_of(l.origin());
+            o.labels.push((a, b, t.len(), t.is_char_boundary(a), t.is_char_boundary(b)));
         }
         // the suggested fixes: their spans are locations too
         for p in w.patches() {
             let (a, b) = (p.span().start(), p.span().end());
             let _ = p.replacement().len();
-            o.labels.push((a, b, rendered.is_char_boundary(a), rendered.is_char_boundary(b)));
-            if rendered.get(a..b).map(|t| t.contains('\n')).unwrap_or(false) { o.multiline_fix = true; }
+            let po = p.origin();
+            let t = text_of(po.as_deref());
+            o.labels.push((a, b, t.len(), t.is_char_boundary(a), t.is_char_boundary(b)));
+            if t.get(a..b).map(|t| t.contains('\n')).unwrap_or(false) { o.multiline_fix = true; }
         }
     }
     o.ignored = c.ignored_rules().map(|(n, _)| n.to_string()).collect();
@@ -167,16 +219,16 @@ fn observe(src: &[u8], cfg: u8) -> Obs {
 
 fn obs_json(o: &Obs) -> String {
     let strs = |v: &Vec<String>| format!("[{}]", v.iter().map(|s| json_str(s)).collect::<Vec<_>>().join(","));
-    format!("{{\"panicked\":{},\"add_ok\":{},\"nerr\":{},\"nwarn\":{},\"render_ok\":{},\"build_ok\":{},\"labels\":[{}],\"rendered_len\":{},\"declared\":{},\"built\":{},\"ignored\":{},\"ast_rules\":{},\"utf8_err\":{},\"e032_span\":{},\"max_depth\":{},\"codes\":{},\"wcodes\":{},\"multiline_fix\":{},\"re_outside\":{},\"cfg\":{},\"linecol\":[{}],\"head_ok\":{},\"decl_spans\":[{}],\"err_labels\":[{}]}}",
+    format!("{{\"panicked\":{},\"add_ok\":{},\"nerr\":{},\"nwarn\":{},\"render_ok\":{},\"build_ok\":{},\"labels\":[{}],\"rendered_len\":{},\"declared\":{},\"built\":{},\"ignored\":{},\"ast_rules\":{},\"utf8_err\":{},\"e032_span\":{},\"max_depth\":{},\"codes\":{},\"wcodes\":{},\"multiline_fix\":{},\"re_outside\":{},\"cfg\":{},\"linecol\":[{}],\"head_ok\":{},\"decl_spans\":[{}],\"err_labels\":[{}],\"twin_mismatch\":{},\"has_includes\":{}}}",
         match &o.panicked { Some(m) => json_str(m), None => "null".into() }, o.add_ok, o.nerr, o.nwarn, o.render_ok, o.build_ok,
-        o.labels.iter().map(|(a, b, x, y)| format!("[{},{},{},{}]", a, b, x, y)).collect::<Vec<_>>().join(","), o.rendered_len,
+        o.labels.iter().map(|(a, b, n, x, y)| format!("[{},{},{},{},{}]", a, b, n, x, y)).collect::<Vec<_>>().join(","), o.rendered_len,
         strs(&o.declared), strs(&o.built), strs(&o.ignored),
         match &o.ast_rules { Some(v) => strs(v), None => "null".into() },
         match &o.utf8_err { Some((v, Some(n))) => format!("[{},{}]", v, n), Some((v, None)) => format!("[{},null]", v), None => "null".into() },
         match &o.e032_span { Some((a, b)) => format!("[{},{}]", a, b), None => "null".into() }, o.max_depth, strs(&o.codes), strs(&o.wcodes), o.multiline_fix, o.re_outside, o.cfg,
         o.linecol.iter().map(|(a, b)| format!("[{},{}]", a, b)).collect::<Vec<_>>().join(","), o.head_ok,
         o.decl_spans.iter().map(|(a, b)| format!("[{},{}]", a, b)).collect::<Vec<_>>().join(","),
-        o.err_labels.iter().map(|(a, b)| format!("[{},{}]", a, b)).collect::<Vec<_>>().join(","))
+        o.err_labels.iter().map(|(a, b)| format!("[{},{}]", a, b)).collect::<Vec<_>>().join(","), o.twin_mismatch, o.has_includes)
 }
 
 fn obs_from_json(s: &str) -> Option<Obs> {
@@ -186,7 +238,7 @@ fn obs_from_json(s: &str) -> Option<Obs> {
         crashed: false, timed_out: false, panicked: v["panicked"].as_str().map(|s| s.to_string()),
         add_ok: v["add_ok"].as_bool()?, nerr: v["nerr"].as_u64()? as usize, nwarn: v["nwarn"].as_u64()? as usize,
         render_ok: v["render_ok"].as_bool()?, build_ok: v["build_ok"].as_bool()?,
-        labels: v["labels"].as_array()?.iter().map(|l| (l[0].as_u64().unwrap() as usize, l[1].as_u64().unwrap() as usize, l[2].as_bool().unwrap(), l[3].as_bool().unwrap())).collect(),
+        labels: v["labels"].as_array()?.iter().map(|l| (l[0].as_u64().unwrap() as usize, l[1].as_u64().unwrap() as usize, l[2].as_u64().unwrap() as usize, l[3].as_bool().unwrap(), l[4].as_bool().unwrap())).collect(),
         rendered_len: v["rendered_len"].as_u64()? as usize,
         declared: strs(&v["declared"])?, built: strs(&v["built"])?, ignored: strs(&v["ignored"])?, ast_rules: strs(&v["ast_rules"]),
         utf8_err: v["utf8_err"].as_array().map(|a| (a[0].as_u64().unwrap() as usize, a[1].as_u64().map(|x| x as usize))),
@@ -195,6 +247,7 @@ fn obs_from_json(s: &str) -> Option<Obs> {
         linecol: v["linecol"].as_array().map(|a| a.iter().map(|x| (x[0].as_bool().unwrap_or(false), x[1].as_bool().unwrap_or(false))).collect()).unwrap_or_default(),
         head_ok: v["head_ok"].as_bool().unwrap_or(true),
         decl_spans: v["decl_spans"].as_array().map(|a| a.iter().map(|x| (x[0].as_u64().unwrap_or(0) as usize, x[1].as_u64().unwrap_or(0) as usize)).collect()).unwrap_or_default(),
+        twin_mismatch: v["twin_mismatch"].as_bool().unwrap_or(false), has_includes: v["has_includes"].as_bool().unwrap_or(false),
         err_labels: v["err_labels"].as_array().map(|a| a.iter().map(|x| (x[0].as_u64().unwrap_or(0) as usize, x[1].as_u64().unwrap_or(0) as usize)).collect()).unwrap_or_default(),
     })
 }
@@ -219,13 +272,15 @@ fn child(file: &str, from: usize) -> i32 {
         let text = std::fs::read_to_string(&file).unwrap();
         let out = std::io::stdout();
         for (i, line) in text.lines().enumerate().skip(from) {
-            let (cfg, hx) = line.trim().split_once(' ').unwrap_or(("0", line.trim()));
-            let cfg: u8 = cfg.parse().unwrap_or(0);
-            let src = unhex(hx);
+            let mut parts = line.trim().split(' ');
+            let cfg: u8 = parts.next().and_then(|x| x.parse().ok()).unwrap_or(0);
+            let src = unhex(parts.next().unwrap_or(""));
+            let inc = parts.next().and_then(inc_decode);
+            let inc_dir = Path::new(&file).parent().unwrap_or(Path::new(".")).join("inc");
             { let mut o = out.lock(); writeln!(o, "BEGIN {}", i).unwrap(); o.flush().unwrap(); }
-            let obs = match catch(AssertUnwindSafe(|| observe(&src, cfg))) {
+            let obs = match catch(AssertUnwindSafe(|| observe(&src, cfg, inc.as_ref().map(|i| (i, inc_dir.as_path()))))) {
                 Ok(o) => o,
-                Err(m) => { let mut o = Obs::default(); o.cfg = cfg; o.panicked = Some(format!("{}: {}", PANIC_LOC.lock().unwrap(), m)); o }
+                Err(m) => { let mut o = Obs::default(); o.cfg = cfg; o.has_includes = inc.is_some(); o.panicked = Some(format!("{}: {}", PANIC_LOC.lock().unwrap(), m)); o }
             };
             { let mut o = out.lock(); writeln!(o, "RESULT {} {}", i, obs_json(&obs)).unwrap(); o.flush().unwrap(); }
         }
@@ -234,7 +289,9 @@ fn child(file: &str, from: usize) -> i32 {
 }
 
 /// parent: run all cases through children; a crash/hang is attributed to the case in progress
-fn run_in_children(cases: &[(u8, Vec<u8>)], dir: &Path) -> Vec<Obs> {
+type Job = (u8, Vec<u8>, Option<IncSet>);
+
+fn run_in_children(cases: &[Job], dir: &Path) -> Vec<Obs> {
     let limits: Vec<u64> = cases.iter().map(|c| time_limit(&c.1)).collect();
     let mut res = run_in_children_once(cases, &limits, dir);
     // a crash or a time-out must be reproducible: run the case again on its own (machine load, OOM killer)
@@ -257,9 +314,9 @@ fn time_limit(src: &[u8]) -> u64 {
     if huge || nested_calls { 8 } else { CASE_TIMEOUT_S }
 }
 
-fn run_in_children_once(cases: &[(u8, Vec<u8>)], limits: &[u64], dir: &Path) -> Vec<Obs> {
+fn run_in_children_once(cases: &[Job], limits: &[u64], dir: &Path) -> Vec<Obs> {
     let file = dir.join("batch.hex");
-    std::fs::write(&file, cases.iter().map(|c| format!("{} {}", c.0, hex(&c.1))).collect::<Vec<_>>().join("\n") + "\n").unwrap();
+    std::fs::write(&file, cases.iter().map(|c| match &c.2 { Some(i) => format!("{} {} {}", c.0, hex(&c.1), inc_encode(i)), None => format!("{} {}", c.0, hex(&c.1)) }).collect::<Vec<_>>().join("\n") + "\n").unwrap();
     let exe = std::env::current_exe().unwrap();
     let mut res: Vec<Option<Obs>> = vec![None; cases.len()];
     let mut from = 0usize;
@@ -527,6 +584,87 @@ fn vary_newlines(rng: &mut Rng, src: &[u8]) -> Vec<u8> {
     out
 }
 
+const INC_FILES: &[(&str, &[u8])] = &[
+    ("ok.yar", b"rule inc_ok { condition: true }\n"),
+    ("ok2.yar", b"// second file\r\nrule inc_ok2 {\r\n strings: $a = \"x\"\r\n condition: $a\r\n}\r\n"),
+    ("sem.yar", b"rule inc_before { condition: true }\nrule inc_sem {\n  condition:\n    undefined_in_include\n}\n"),
+    ("syn.yar", b"rule inc_syn {\n condition: true true\n}\nrule inc_after { condition: true }"),
+    ("warn.yar", b"\n\nrule inc_warn { strings: $a = { 00 00 00 00 } condition: $a and 1 == 1 }"),
+    ("bad_utf8.yar", b"rule inc_bad { condition: \xff }"),
+    ("empty.yar", b""),
+    ("nest.yar", b"include \"ok.yar\"\nrule inc_nest { condition: inc_ok }\n"),
+    ("nest_err.yar", b"include \"sem.yar\"\nrule inc_nest2 { condition: also_undefined }\n"),
+    ("self.yar", b"rule inc_self { condition: true }\ninclude \"self.yar\"\n"),
+    ("loop_a.yar", b"include \"loop_b.yar\" rule la { condition: true }"),
+    ("loop_b.yar", b"include \"loop_a.yar\" rule lb { condition: true }"),
+    ("long.yar", b"/* a longer file than the including one, so that a span of this file is beyond the end of the other\n\n\n\n\n\n\n\n\n\n\n\n\n\n\n\n\n\n\n\n\n\n\n\n\n\n\n\n\n\n\n\n\n\n\n\n\n\n\n\n */ rule inc_long { condition: late_undefined_identifier_far_away }"),
+];
+
+fn inc_all() -> IncSet { IncSet { files: INC_FILES.iter().map(|(n, c)| (n.to_string(), c.to_vec())).collect(), weird_dir: false } }
+
+/// an including source: rules of mixed fate before and after `include` statements
+fn gen_include_case(rng: &mut Rng) -> (Vec<u8>, IncSet) {
+    let mut s = String::new();
+    let k = 2 + rng.below(5);
+    for i in 0..k {
+        if rng.chance(1, 2) {
+            s.push_str(&format!("include \"{}\"", rng.pick(&["ok.yar", "ok2.yar", "sem.yar", "syn.yar", "warn.yar", "bad_utf8.yar", "empty.yar", "nest.yar", "nest_err.yar", "self.yar", "loop_a.yar", "missing.yar", "long.yar", "sem.yar", "syn.yar"])));
+        } else {
+            s.push_str(&match rng.below(6) {
+                0 | 1 => format!("rule main{} {{ condition: true }}", i),
+                2 => format!("rule main{} {{ condition: main_undefined_{} }}", i, i),
+                3 => format!("rule main{} {{ condition: true true }}", i),
+                4 => format!("rule main{} {{ strings: $a = {{ 00 00 00 00 }} condition: $a and 2 == 2 }}", i),
+                _ => format!("rule main{} {{ condition: inc_ok or inc_before }}", i),
+            });
+        }
+        s.push_str(*rng.pick(&["\n", " ", "\r\n", "\n\n"]));
+    }
+    (s.into_bytes(), inc_all())
+}
+
+fn include_corpus() -> Vec<(Vec<u8>, IncSet)> {
+    let mut v: Vec<(Vec<u8>, IncSet)> = vec![];
+    for src in [&b"include \"sem.yar\"\nrule after { condition: undefined_after_include }\n"[..],
+                b"rule before { condition: undefined_before }\ninclude \"syn.yar\"\n\n\n\nrule after { strings: $a = { 00 00 00 00 } condition: $a and undefined_after }",
+                b"include \"long.yar\" rule short { condition: x }",
+                b"include \"nest_err.yar\"\ninclude \"ok2.yar\"\nrule m { condition: inc_ok2 and nope }",
+                b"include \"self.yar\"", b"include \"loop_a.yar\" rule m { condition: la and lb }", b"include \"missing.yar\" rule m { condition: true }",
+                b"include \"bad_utf8.yar\" rule m { condition: nope }", b"include \"empty.yar\"include \"ok.yar\" rule m { condition: inc_ok }"] {
+        v.push((src.to_vec(), inc_all()));
+    }
+    // the include directory's name is not valid UTF-8
+    v.push((b"include \"ok.yar\" rule m { condition: inc_ok }".to_vec(), IncSet { files: vec![("ok.yar".to_string(), b"rule inc_ok { condition: true }".to_vec())], weird_dir: true }));
+    v
+}
+
+/// every pattern modifier and pairs of modifiers on text patterns of 0..4 bytes, with arguments at their
+/// boundaries; one-byte hex patterns; regexps that match the empty string
+fn modifier_matrix(rng: &mut Rng, n: usize) -> Vec<Vec<u8>> {
+    const MODS: &[&str] = &["ascii", "wide", "nocase", "fullword", "private", "xor", "xor(0)", "xor(255)", "xor(256)", "xor(5-3)", "xor(0-255)", "xor(1-1)",
+        "base64", "base64wide",
+        "base64(\"ABCDEFGHIJKLMNOPQRSTUVWXYZabcdefghijklmnopqrstuvwxyz0123456789+\")",
+        "base64(\"ABCDEFGHIJKLMNOPQRSTUVWXYZabcdefghijklmnopqrstuvwxyz0123456789+/\")",
+        "base64(\"ABCDEFGHIJKLMNOPQRSTUVWXYZabcdefghijklmnopqrstuvwxyz0123456789+/=\")",
+        "base64(\"AACDEFGHIJKLMNOPQRSTUVWXYZabcdefghijklmnopqrstuvwxyz0123456789+/\")",
+        "base64wide(\"!@#$%^&*(){}[].,|ABCDEFGHIJ\\x09LMNOPQRSTUVWXYZabcdefghijklmnopqrstu\")", "base64(\"\")"];
+    const TEXTS: &[&str] = &["", "a", "ab", "abc", "abcd", "\\x00", "\\x00\\x01", "\u{e9}", " "];
+    let mut all: Vec<String> = vec![];
+    for t in TEXTS { for m in MODS { all.push(format!("rule r {{ strings: $a = \"{}\" {} condition: $a }}", t, m)); } }
+    for t in TEXTS { for m1 in ["base64", "base64wide", "xor", "fullword", "wide"] { for m2 in MODS {
+        all.push(format!("rule r {{ strings: $a = \"{}\" {} {} condition: $a }}", t, m1, m2)); } } }
+    for h in ["01", "??", "~01", "0?", "( 01 | 02 )", "01 [0] 02", "[1] 01", "01 [1]", ""] { for m in ["", "private", "wide", "xor"] {
+        all.push(format!("rule r {{ strings: $a = {{ {} }} {} condition: $a }}", h, m)); } }
+    for re in ["a*", "(a|)", "^$", "a?", "()", "a{0}", "\\b", ".*", "(a*)*", "[^\\x00-\\xff]"] { for m in ["", "wide", "nocase", "fullword", "ascii wide", "base64", "xor"] {
+        all.push(format!("rule r {{ strings: $a = /{}/ {} condition: $a }}", re, m)); } }
+    // a deterministic rotation through the whole matrix: every run covers a different window, every entry is small
+    let start = rng.below(all.len() as u64) as usize;
+    // the one- and two-byte base64 / base64wide patterns are always there
+    let mut out: Vec<Vec<u8>> = all.iter().filter(|s| (s.contains("\"a\" base64") || s.contains("\"ab\" base64") || s.contains("\"\" base64")) && !s.contains("(")).map(|s| s.clone().into_bytes()).collect();
+    for k in 0..n { out.push(all[(start + k * 7) % all.len()].clone().into_bytes()); }
+    out
+}
+
 fn main() { let args: Vec<String> = std::env::args().skip(1).collect(); std::process::exit(run(&args)); }
 
 fn run(args: &[String]) -> i32 {
@@ -539,7 +677,9 @@ fn run(args: &[String]) -> i32 {
         let src = unhex(&hx);
         let cfg = arg_u64(args, "--cfg", 0) as u8;
         println!("compiler configuration: {} ({})", cfg, cfg_name(cfg));
-        let o = &run_in_children(&[(cfg, src.clone())], dir)[0];
+        let inc = arg_val(args, "--inc").and_then(|x| inc_decode(&x));
+        if let Some(i) = &inc { for (n, c) in &i.files { println!("include file {:?}: {:?}", n, String::from_utf8_lossy(c)); } }
+        let o = &run_in_children(&[(cfg, src.clone(), inc)], dir)[0];
         println!("source ({} bytes): {:?}", src.len(), String::from_utf8_lossy(&src[..src.len().min(300)]));
         println!("crashed={} timed_out={} {}", o.crashed, o.timed_out, obs_json(o));
         let bad = spec_violations(o);
@@ -552,7 +692,7 @@ fn run(args: &[String]) -> i32 {
     let max_nest = arg_u64(args, "--max-nest", 200);
     let mut rng = Rng::new(seed);
     // (stream, source, compiler configuration)
-    let mut cases: Vec<(String, Vec<u8>, u8)> = corpus(n >= 4000).into_iter().map(|(a, b)| (a, b, 0u8)).collect();
+    let mut cases: Vec<(String, Vec<u8>, u8, Option<IncSet>)> = corpus(n >= 4000).into_iter().map(|(a, b)| (a, b, 0u8, None)).collect();
     // inputs that need a non-default configuration
     for (src, cfg) in [(&b"rule r { strings: $a = /a{}b{}(/ condition: $a }"[..], 1u8), (b"rule r { strings: $a = /a{}b(/ condition: $a }", 1),
                        (b"rule r { strings: $a = /\\g{x}[z-a]/ condition: $a }", 1),
@@ -564,10 +704,14 @@ fn run(args: &[String]) -> i32 {
                        ("rule r { strings: $a = /\\%\u{20ac}(a{}/ condition: $a }".as_bytes(), 1), (b"rule r { strings: $a = { 00 00 00 00 } condition: $a }", 2),
                        (b"rule Bad : t9 { condition: true }", 3), (b"import \"pe\" import \"math\" rule r { condition: pe.is_pe and math.abs(1) == 1 } rule q { condition: r }", 4),
                        (b"rule r { strings: $a = \"abc\" condition: $a and for all i in (0..filesize) : ( i > 0 ) }", 2)] {
-        cases.push(("corpus_cfg".to_string(), src.to_vec(), cfg));
+        cases.push(("corpus_cfg".to_string(), src.to_vec(), cfg, None));
     }
     // every token of a set of small rules that covers every production: deleted, duplicated
-    for (stream, src) in token_sweep() { cases.push((stream, src, 0)); }
+    for (stream, src) in token_sweep() { cases.push((stream, src, 0, None)); }
+    // includes: files of every fate, rules of mixed fate before and after the include statements
+    for (src, inc) in include_corpus() { cases.push(("include".to_string(), src, 0, Some(inc))); }
+    // every pattern modifier (and pairs) on patterns of 0..4 bytes, arguments at their boundaries
+    for src in modifier_matrix(&mut rng, if n >= 4000 { 1200 } else { 260 }) { cases.push(("modifier_matrix".to_string(), src, 0, None)); }
     if n >= 400 {
         // invalid UTF-8 at EVERY position of one small valid rule, for three kinds of bad sequence
         let base = b"rule r {condition: \"\xc3\xa9\" == \"e\"}".to_vec();
@@ -575,7 +719,7 @@ fn run(args: &[String]) -> i32 {
             for p in 0..=base.len() {
                 let mut v = base.clone();
                 for (k, b) in bad.iter().enumerate() { v.insert(p + k, *b); }
-                cases.push(("invalid_utf8_sweep".to_string(), v, 0));
+                cases.push(("invalid_utf8_sweep".to_string(), v, 0, None));
             }
         }
     }
@@ -583,9 +727,10 @@ fn run(args: &[String]) -> i32 {
     let mut generated = 0usize;
     while generated < n {
         generated += 1;
-        let c = match rng.below(30) {
+        let c = match rng.below(34) {
             19..=24 => ("regexp_error".to_string(), gen_regexp_error(&mut rng)),
             25..=29 => ("mixed_fate".to_string(), gen_mixed_fate(&mut rng)),
+            30..=33 => ("include".to_string(), vec![]),
             12 | 13 => ("long_token_error".to_string(), gen_long_token_error(&mut rng)),
             14 | 15 => ("int_literal_position".to_string(), gen_int_literal_position(&mut rng)),
             16 | 18 => ("multiline_fix".to_string(), gen_multiline_fix(&mut rng)),
@@ -621,10 +766,11 @@ fn run(args: &[String]) -> i32 {
         if c.0 == "regexp_error" { cfgs.push(1); }
         if c.0 == "mixed_fate" { cfgs.push(4); }
         cfgs.sort(); cfgs.dedup();
-        for cfg in cfgs { cases.push((c.0.clone(), c.1.clone(), cfg)); }
+        if c.0 == "include" { let (src, inc) = gen_include_case(&mut rng); cases.push(("include".to_string(), src, 0, Some(inc))); continue; }
+        for cfg in cfgs { cases.push((c.0.clone(), c.1.clone(), cfg, None)); }
     }
     let _ = fixed;
-    let srcs: Vec<(u8, Vec<u8>)> = cases.iter().map(|c| (c.2, c.1.clone())).collect();
+    let srcs: Vec<Job> = cases.iter().map(|c| (c.2, c.1.clone(), c.3.clone())).collect();
     let t0 = std::time::Instant::now();
     let obs = run_in_children(&srcs, dir);
     let elapsed = t0.elapsed().as_secs_f64();
@@ -634,7 +780,7 @@ fn run(args: &[String]) -> i32 {
     let mut stats = Stats::default();
     let mut distinct = std::collections::HashSet::new();
     let mut samples = vec![];
-    for ((stream, src, cfg), o) in cases.iter().zip(obs.iter()) {
+    for ((stream, src, cfg, inc), o) in cases.iter().zip(obs.iter()) {
         // intern rule names of this case
         let mut names: Vec<String> = vec![];
         let mut id = |s: &String| -> String { let i = match names.iter().position(|x| x == s) { Some(i) => i, None => { names.push(s.clone()); names.len() - 1 } }; i.to_string() };
@@ -647,19 +793,21 @@ fn run(args: &[String]) -> i32 {
                 match &o.e032_span { Some((a, b)) => format!("Some ({}, {})", a, b), None => "None".into() }),
             _ => "None".into(),
         };
-        let case = format!("mkCase {} {} {} {}%nat {}%nat {} {} {} {} {} {} {} {} {} {}%nat {} {} {} {}",
+        let case = format!("mkCase {} {} {} {}%nat {}%nat {} {} {} {} {} {} {} {} {} {}%nat {} {} {} {} {}",
             coq_bool(o.crashed || o.timed_out), coq_bool(o.panicked.is_some()), coq_bool(o.add_ok), o.nerr, o.nwarn, coq_bool(o.render_ok), coq_bool(o.build_ok),
-            coq_list(&o.labels, |(a, b, x, y)| format!("({}, {}, {}, {})", a, b, coq_bool(*x), coq_bool(*y))), o.rendered_len,
+            coq_list(&o.labels, |(a, b, n, x, y)| format!("({}, {}, {}, {}, {})", a, b, n, coq_bool(*x), coq_bool(*y))), o.rendered_len,
             declared, built, ignored, ast_rules, utf8, o.re_outside,
             coq_list(&o.linecol, |(a, b)| format!("({}, {})", coq_bool(*a), coq_bool(*b))), coq_bool(o.head_ok),
-            coq_list(&o.decl_spans, |(a, b)| format!("({}, {})", a, b)), coq_list(&o.err_labels, |(a, b)| format!("({}, {})", a, b)));
+            coq_list(&o.decl_spans, |(a, b)| format!("({}, {})", a, b)), coq_list(&o.err_labels, |(a, b)| format!("({}, {})", a, b)), coq_bool(o.twin_mismatch));
         let shown = if src.len() > 400 { format!("{}...({} bytes)", String::from_utf8_lossy(&src[..200]), src.len()) } else { String::from_utf8_lossy(src).to_string() };
-        let replay = format!("{{\"stream\":{},\"cfg\":{},\"cfg_name\":\"{}\",\"source_hex\":\"{}\",\"source_lossy\":{},\"crashed\":{},\"timed_out\":{},\"obs\":{},\"violations\":[{}]}}",
-            json_str(stream), cfg, cfg_name(*cfg), if src.len() <= 20000 { hex(src) } else { String::new() }, json_str(&shown), o.crashed, o.timed_out, obs_json(o),
+        let replay = format!("{{\"stream\":{},\"includes\":{},\"cfg\":{},\"cfg_name\":\"{}\",\"source_hex\":\"{}\",\"source_lossy\":{},\"crashed\":{},\"timed_out\":{},\"obs\":{},\"violations\":[{}]}}",
+            json_str(stream), match inc { Some(i) => json_str(&inc_encode(i)), None => "null".into() }, cfg, cfg_name(*cfg), if src.len() <= 20000 { hex(src) } else { String::new() }, json_str(&shown), o.crashed, o.timed_out, obs_json(o),
             spec_violations(o).iter().map(|s| json_str(s)).collect::<Vec<_>>().join(","));
         stats.inc(&format!("stream_{}", stream));
         stats.inc(&format!("cfg_{}", cfg_name(*cfg)));
         if o.flaky { stats.inc("crash_or_timeout_not_reproduced"); }
+        if o.twin_mismatch { stats.inc("base64_twin_mismatch"); }
+        if o.labels.iter().any(|l| l.2 != o.rendered_len) { stats.inc("label_in_included_file"); }
         if o.crashed { stats.inc("child_crashed"); } if o.timed_out { stats.inc("child_timed_out"); } if o.panicked.is_some() { stats.inc("panicked"); }
         if o.add_ok { stats.inc("accepted"); } else { stats.inc("rejected"); }
         if o.utf8_err.is_some() { stats.inc("invalid_utf8"); }
@@ -691,10 +839,11 @@ fn spec_violations(o: &Obs) -> Vec<String> {
     if !o.build_ok { v.push("build() did not complete".into()); }
     if !o.render_ok { v.push("a diagnostic rendered to an empty string".into()); }
     if o.add_ok != (o.nerr == 0) { v.push(format!("add_source Ok={} but {} errors recorded", o.add_ok, o.nerr)); }
-    for (a, b, x, y) in &o.labels {
-        if a > b || *b > o.rendered_len { v.push(format!("label span {a}..{b} outside the source ({} bytes)", o.rendered_len)); }
+    for (a, b, n, x, y) in &o.labels {
+        if a > b || *b > *n { v.push(format!("label span {a}..{b} outside the text it refers to ({} bytes)", n)); }
         else if !x || !y { v.push(format!("label span {a}..{b} not on character boundaries")); }
     }
+    if o.twin_mismatch { v.push("the same source with base64 and base64wide exchanged is accepted / rejected differently".to_string()); }
     if o.re_outside > 0 { v.push(format!("{} label(s) of an `invalid regular expression` error neither lie inside a regexp literal of the source nor contain one", o.re_outside)); }
     for (i, (a, b)) in o.linecol.iter().enumerate() {
         if !a && !b { v.push(format!("label {i}: the reported line/column does not designate the start of its span (neither with lines ending at \\n nor with \\n, \\r\\n and lone \\r)")); }
